@@ -148,9 +148,66 @@ def run(ctx):
     for li in range(nl):
         listing_case(ctx, rng, li)
 
+    concurrent_matching(ctx, matcher)
     ctx.sample({'filter': {'k': ['a*', op('<', 5)]}, 'metadata': {'k': 'ab'}, 'reference': ref_match({'k': ['a*', op('<', 5)]}, {'k': 'ab'})})
     ctx.sample({'filter': {'k': op('<', 5)}, 'metadata': {}, 'reference': ref_match({'k': op('<', 5)}, {})})
     ctx.sample({'filter': {'k': 'a*'}, 'metadata': {'k': 5}, 'reference': ref_match({'k': 'a*'}, {'k': 5})})
+
+
+def concurrent_matching(ctx, matcher):
+    """Matching is a function of (filter, metadata): several threads matching at the same time (listings run from worker threads)
+    after the process has already seen hundreds of distinct patterns must still get the reference answer and never an exception.
+    Explored with the deterministic scheduler at line granularity of playback/tape_cassette.py."""
+    from vlib import sched as S
+    import playback.tape_cassette as tc
+    for i in range(300):                      # a long-lived process has matched many distinct patterns before
+        matcher({'k': 'warm-%d-*' % i}, {'k': 'warm-%d-x' % i})
+    jobs = [[({'k': 'ab*'}, {'k': 'abc'}), ({'k': 'n%d?' % 1}, {'k': 'n1x'}), ({'k': ['zz*', 'q[ab]']}, {'k': 'qa'})],
+            [({'k': 'fresh-*'}, {'k': 'fresh-1'}), ({'k': 'x?z'}, {'k': 'xyz'}), ({'k': 'ab*'}, {'k': 'xb'})]]
+    holder = {'n': 0}
+
+    def make(sched):
+        results = {}
+        holder['results'] = results
+        holder['n'] += 1          # every execution uses patterns never seen before: a bounded pattern cache of any capacity wraps
+
+        def worker(i):
+            def fn():
+                for n, (flt, md) in enumerate(jobs[i]):
+                    try:
+                        tag = 't%d-%d-%d' % (i, n, holder['n'])
+                        results[(i, n)] = ('ok', matcher(dict(flt, u=tag + '*'), dict(md, u=tag + '!')))
+                    except Exception as ex:
+                        results[(i, n)] = ('raised', repr(ex))
+            return fn
+
+        def main():
+            ths = [sched.Thread(target=worker(i), name='matcher%d' % i) for i in range(2)]
+            for t in ths:
+                t.start()
+            for t in ths:
+                t.join()
+        return main
+
+    def on_run(rec, desc):
+        ctx.case(rec.trace, nontrivial=len(rec.points) > 0)
+        ctx.count('concurrent_matching_schedules')
+        w = {'concurrent_matching': True, 'schedule': desc if isinstance(desc, tuple) else list(desc)}
+        if rec.aborted or rec.error is not None:
+            ctx.violation('concurrent matching: %s' % (rec.aborted or repr(rec.error))[:100], w)
+            return
+        for (i, n), (st, val) in holder['results'].items():
+            flt, md = jobs[i][n]
+            exp = ref_match(flt, md)
+            if st != 'ok':
+                ctx.violation('matcher raised under concurrent use: %s' % val[:80], dict(w, filter=flt))
+                return
+            if bool(val) != exp:
+                ctx.violation('matcher answered %r under concurrent use, reference says %r' % (val, exp), dict(w, filter=flt, metadata=md))
+                return
+    runs, complete = S.explore_dfs(make, [tc.__file__], 1, on_run, max_runs=900 if ctx.quick else 3000,
+                                   shard=(ctx.shard, ctx.nshards) if ctx.nshards > 1 else None)
+    S.explore_random(make, [tc.__file__], ctx.budget(900, 6000), ctx.rng, on_run)
 
 
 def listing_case(ctx, rng, li):
